@@ -401,7 +401,9 @@ def _descent_front_case(case):
     import numpy as np
     from pymoo.core.problem import Problem
     from pymoo.core.individual import Individual
-    from pybrops.opt.algo.pymoo_addon import MultiObjectiveStochasticDescentHillClimberMutation as M
+    from pybrops.opt.algo import pymoo_addon as _addon
+    steepest = case.get("which") == "steepest"
+    M = _addon.MultiObjectiveSteepestDescentHillClimberMutation if steepest else _addon.MultiObjectiveStochasticDescentHillClimberMutation
     rs = np.random.RandomState(case["seed"])
     table = rs.randint(0, 5, size=(case["nset"], case["nobj"])).astype(float)
 
@@ -415,7 +417,7 @@ def _descent_front_case(case):
     np.random.seed(case["seed"] % (2 ** 31))
     try:
         x0 = np.random.choice(case["nset"], case["k"], replace=False)
-        mut = M(setspace=np.arange(case["nset"]), phc=1.0, nhc=3 * case["k"])
+        mut = M(setspace=np.arange(case["nset"]), p_hillclimb=1.0) if steepest else M(setspace=np.arange(case["nset"]), phc=1.0, nhc=3 * case["k"])
         with contextlib.redirect_stdout(io.StringIO()):
             pop = mut.hillclimb(P_(), Individual(X=x0.copy()))
     finally:
@@ -432,14 +434,15 @@ def _descent_front_case(case):
 
 
 @unit(P, "ring[stochastic-descent memetic hill climber returns mutually non-dominated individuals]", "R", bounded=True,
-      targets=[ADDON + ":MultiObjectiveStochasticDescentHillClimberMutation.hillclimb"],
+      targets=[ADDON + ":MultiObjectiveStochasticDescentHillClimberMutation.hillclimb", ADDON + ":MultiObjectiveSteepestDescentHillClimberMutation.hillclimb"],
       note="bounded: 400 (thorough 8000) seeded climbs on unconstrained additive table problems, set space <=12, subsets <=4, 1-3 objectives "
            "with small integer scores (ties, duplicates)")
 def u_ring_descent(ctx):
     ctx.rule = "seeded; numpy's global generator seeded per case and restored; every case counted; distinct by the case"
     for c in range(400 if ctx.tier == "quick" else 8000):
         k = ctx.rng.choice([2, 3, 4])
-        case = dict(seed=ctx.rng.randrange(10 ** 9), nset=ctx.rng.randrange(k + 2, 13), k=k, nobj=ctx.rng.choice([1, 2, 2, 3]))
+        case = dict(seed=ctx.rng.randrange(10 ** 9), nset=ctx.rng.randrange(k + 2, 13), k=k, nobj=ctx.rng.choice([1, 2, 2, 3]),
+                    which=ctx.rng.choice(["stochastic", "steepest"]))      # both descent variants document a non-dominated result
         try:
             bad, msg = _descent_front_case(case)
         except Exception as e:
